@@ -3,10 +3,11 @@
 // C23 harness: quic packet-number length selection, truncated encoding and decoding.
 //
 // ops:  len <pn> <A>        packetNumberLength(pn, A)                       -> ok <n>
-//       app <pn> <A>        appendPacketNumber(nil, pn, A)                  -> ok x<hex>
-//       dec <L> <t> <n>     decodePacketNumber(L, t, n), 0<=t<2^(8n), n=1..4 -> ok <pn>
-//       rt <A> <L> <pn>     sender encodes pn given A, receiver with largest L decodes
-//                                                                           -> ok <n> x<hex> <decoded>
+//
+//	app <pn> <A>        appendPacketNumber(nil, pn, A)                  -> ok x<hex>
+//	dec <L> <t> <n>     decodePacketNumber(L, t, n), 0<=t<2^(8n), n=1..4 -> ok <pn>
+//	rt <A> <L> <pn>     sender encodes pn given A, receiver with largest L decodes
+//	                                                                    -> ok <n> x<hex> <decoded>
 package main
 
 import (
